@@ -44,11 +44,14 @@ EnvAll == EnvFew \cup { <<K("environment_id","ne",{1})>>, <<K("environment_id","
                         <<K("environment_id","gt",{1})>>, <<K("environment_id","eq",{3})>>, <<K("ea","in",{2,3})>>, <<K("ea","ne",{1})>>,
                         <<K("eb","nin",{0})>>, <<<<"pred","ea","eq",{1}>>>>, <<<<"call","environment_id","ge",{2}>>>>,
                         <<K("environment_id","eq",{1}), K("ea","eq",{2})>>, <<K("ea","eq",{7})>> }
+EnvMid == EnvFew \cup { <<K("environment_id","ne",{1})>>, <<K("environment_id","le",{1})>>, <<K("environment_id","eq",{3})>>, <<K("ea","in",{2,3})>>,
+                        <<K("eb","nin",{0})>>, <<<<"call","environment_id","ge",{2}>>>> }
 LrnFew == { <<K("learner_id","in",{1})>>, <<K("la","eq",{1})>>, <<K("learner_id","ne",{1})>>,
             <<<<"pred","learner_id","in",{2,3}>>>>, <<<<"call","lb","in",{0}>>>>, <<K("la","eq",{2}), K("lb","eq",{1})>> }
 LrnAll == LrnFew \cup { <<K("learner_id","in",{1,2})>>, <<K("learner_id","nin",{2})>>, <<K("learner_id","lt",{2})>>, <<K("learner_id","ge",{2})>>,
                         <<K("la","in",{1,3})>>, <<K("la","ne",{1})>>, <<K("lb","eq",{1})>>, <<<<"pred","la","in",{2}>>>>,
                         <<<<"call","learner_id","le",{1}>>>>, <<K("learner_id","eq",{9})>> }
+LrnMid == LrnFew \cup { <<K("learner_id","nin",{2})>>, <<K("learner_id","lt",{2})>>, <<K("la","in",{1,3})>>, <<<<"pred","la","in",{2}>>>>, <<K("learner_id","eq",{9})>> }
 ValFew == { <<K("evaluator_id","eq",{1})>>, <<K("va","in",{2})>>, <<<<"pred","evaluator_id","in",{2}>>>> }
 ValAll == ValFew \cup { <<K("evaluator_id","ne",{1})>>, <<K("va","eq",{1})>>, <<<<"call","va","in",{1}>>>>, <<K("evaluator_id","in",{1,2})>> }
 Env2 == { <<K("environment_id","in",{1})>>, <<K("ea","ne",{1})>> }
@@ -61,6 +64,8 @@ IntAll == IntFew \cup { K("index","lt",{3}), K("index","eq",{2}), K("index","in"
                         K("reward","le",{3}), K("reward","ge",{9}), K("reward","eq",{0}), K("reward","nin",{0,1,2,3}),
                         <<"pred","index","le",{2}>>, <<"pred","learner_id","eq",{2}>>, <<"call","reward","gt",{6}>>,
                         K("learner_id","ne",{1}), K("evaluator_id","eq",{1}) }
+IntMid == IntFew \cup { K("index","lt",{3}), K("index","in",{1,3}), K("reward","le",{3}), K("reward","eq",{0}), <<"pred","learner_id","eq",{2}>>,
+                        K("learner_id","ne",{1}) }
 (* ---- raw_contrast: <<A, B, x, l, p, span>> *)
 L1(a) == {<<a>>}
 CtrFew == { <<L1(1), L1(2), Pid, Lid, Pid, 0>>, <<L1(1), L1(2), X, Lid, Pid, 0>>, <<L1(2), L1(1), X, Lid, Pid, 2>>,
@@ -74,7 +79,16 @@ CtrAll == CtrFew \cup
           \cup ({{<<1>>, <<2>>}} \X {L1(3)} \X {Pa, Pid} \X {Pa, Lid} \X {Lid, Pid} \X {0})                    \* several levels as l1
           \cup ({L1(3)} \X {{<<1>>, <<2>>}} \X {Lid, La} \X {Lid} \X {Pid} \X {0, 1})                          \* several levels as l2, x = l
           \cup ({{<<1,0>>}, {<<1,1>>}} \X {{<<2,0>>}, {<<1,0>>}} \X {X, Pab, Pid} \X {Lab} \X {Pid, Pab} \X {0, 2})
+CtrMid == CtrFew \cup
+          ({L1(1)} \X {L1(2)} \X {X, Pid, Pa} \X {Lid} \X {Pid, Pv} \X {0, 2})
+          \cup ({L1(2)} \X {L1(1)} \X {X, Pid} \X {La} \X {Pid, Pa} \X {0, 1})
+          \cup ({L1(1)} \X {L1(2)} \X {X, Pid, Pa} \X {Pa, Pid} \X {Lid} \X {0, 1})
+          \cup ({L1(1)} \X {L1(2)} \X {X, Lid} \X {Vid} \X {Pel} \X {0, 3})
+          \cup ({{<<1>>, <<2>>}} \X {L1(3)} \X {Pa, Pid} \X {Pa, Lid} \X {Lid, Pid} \X {0})
+          \cup ({L1(3)} \X {{<<1>>, <<2>>}} \X {Lid} \X {Lid} \X {Pid} \X {0, 1})
+          \cup ({{<<1,0>>}} \X {{<<2,0>>}, {<<1,1>>}} \X {X, Pab} \X {Lab} \X {Pid, Pab} \X {0, 2})
 (* ---- where_best: <<l, p, nb>> *)
+BestMid == {La, Lab, Lid} \X {Pid, Pa, Pv, <<>>} \X {0, 1}
 BestFew == {<<La, Pid, 0>>, <<La, Pa, 1>>, <<La, <<>>, 0>>, <<Lab, Pid, 2>>}
 BestAll == {La, Lab, Lid, Lav} \X {Pid, Pa, Pab, Pv, <<>>} \X {0, 1, 2}
 (* ---- operations *)
@@ -82,6 +96,7 @@ AllX == {"copy", "setexp", "load", "fpar", "fint", "best", "contrast", "eq"}
 CallsX == {"fpar", "fint", "best", "contrast"}
 ObjX == {"copy", "setexp", "load", "fpar", "fint", "eq"}
 CtrBest == {"contrast", "best"}
+DesignOnly == {"design"}
 OnlyCtr == {"contrast"}
 OnlyBest == {"best"}
 OnlyFil == {"fpar", "fint"}
@@ -100,6 +115,8 @@ Len012 == {0, 1, 2}
 TV2 == {0, 1}
 TV3 == {0, 1, 2}
 TI == {0, 1, 2, 3}
+TI13 == {1, 3}
+TW3 == {<<>>, <<"c", {1, 2}>>}
 TWFew == {<<>>, <<"a", {1}>>, <<"c", {0}>>}
 TWAll == {<<>>, <<"a", {1}>>, <<"a", {0, 1}>>, <<"b", {0}>>, <<"c", {0}>>, <<"c", {1, 2}>>, <<"b", {5}>>}
 (* ---- unused ResultFin constants *)
